@@ -6,6 +6,8 @@ import (
 	"math/big"
 
 	"github.com/vipnode/vipnode/v2/internal/verifapi"
+	"github.com/vipnode/vipnode/v2/internal/verifmodels/sigs"
+	"github.com/vipnode/vipnode/v2/jsonrpc2"
 	"github.com/vipnode/vipnode/v2/pool/balance"
 	"github.com/vipnode/vipnode/v2/pool/store"
 	"github.com/vipnode/vipnode/v2/pool/store/memory"
@@ -54,7 +56,23 @@ func VerifC03Pool() {
 	if linked {
 		spendable.Add(spendable, dep.Deposit[wallet])
 	}
-	_, err := VerifConnect(p, clientSvc, cid, false, "")
+	// the client registers with vipnode_connect or through the deprecated vipnode_client endpoint
+	// (which registers it the same way and then looks for hosts)
+	legacy := verifapi.Bool("legacy-endpoint")
+	var err error
+	if legacy {
+		creq := ClientRequest{Kind: "geth", NumHosts: 1}
+		nonce := VerifFreshNonce()
+		ctx := jsonrpc2.VerifCtxWithService(context.Background(), clientSvc)
+		_, err = p.Client(ctx, sigs.SignFor(cid, "vipnode_client", nonce, creq), cid, nonce, creq)
+		if _, low := err.(balance.LowBalanceError); err != nil && !low {
+			// admitted, but no host acknowledged: not a refusal for the balance
+			verifapi.Assert(spendable.Cmp(min) >= 0, "c03.pool.connect-below-min-refused")
+			return
+		}
+	} else {
+		_, err = VerifConnect(p, clientSvc, cid, false, "")
+	}
 	verifapi.Reach("c03.pool.connect")
 	if lbe, ok := err.(balance.LowBalanceError); ok {
 		verifapi.Assert(spendable.Cmp(min) < 0, "c03.pool.connect-at-or-above-min-accepted")
